@@ -175,6 +175,7 @@ inductive Op (R : Type) where
   | exit (id : String)
   | exitErr (id : String)               -- `Exit(WithError(e))`
   | sysMem (x : Int)                    -- `SetSystemMemoryUsage`: not an input of any system rule
+  | config (sc iv : Nat)                -- `config.ResetGlobalConfig` with another (valid) metric statistic shape
 
 /-- `AddCount` / `UpdateConcurrency` on the inbound node at the current time -/
 def record {R} (s : St R) (x : Bucket) : St R :=
@@ -243,6 +244,9 @@ def step (A : Arith R) (spec : Bool) (s : St R) : Op R → St R × Res
       else if blockedBy A spec s inbound then (onBlocked s batch, .blockSys)
       else (onPassed s { id := id, inbound := inbound, start := s.now, batch := batch }, .pass)
   | .sysMem _ => (s, .none)
+  -- the inbound node is created at package initialisation with the default shape (2 × 500 ms) and keeps it:
+  -- a later change of the configured metric statistic shape only concerns resource nodes created afterwards
+  | .config _ _ => (s, .none)
   | .exit id =>
       if !s.started then (s, .bad) else
       match s.live.find? (·.id == id) with
